@@ -430,6 +430,29 @@ Proof.
   destruct (a_mb a), (a_cb a), (a_res a); repeat split; reflexivity.
 Qed.
 
+(** the two halves composed: what the caller of get_page(i) observes *)
+Theorem page_attributes_correct st fuel id a c kids i :
+  let t := Node id a c kids in
+  stored st None t -> accurate t -> acyclic t ->
+  (theight t <= N.to_nat page_depth)%nat -> (theight t < fuel)%nat -> i <= u32_max ->
+  exists rt, load_root st fuel id = Ok rt /\
+    match nth_error (leaves t) (N.to_nat i) with
+    | Some (lid, la, lanc) =>
+      exists p, get_page st fuel rt i = Ok (lid, LNLeaf la p) /\
+                media_box la p = spec_media_box (la :: lanc) /\
+                crop_box la p = spec_crop_box (la :: lanc) /\
+                resources la p = spec_resources (la :: lanc)
+    | None => get_page st fuel rt i = Err EPageOutOfBounds
+    end.
+Proof.
+  intros t H1 H2 H3 H4 H5 H6.
+  destruct (page_correct st fuel id a c kids i H1 H2 H3 H4 H5 H6) as [rt [Hl [_ Hp]]].
+  exists rt. split; [exact Hl|]. unfold page_answer in Hp. fold t in Hp.
+  destruct (nth_error (leaves t) (N.to_nat i)) as [[[lid la] lanc]|]; [|exact Hp].
+  destruct Hp as [p [Hg Hc]]. exists p. split; [exact Hg|].
+  rewrite <- Hc. apply inherit_correct.
+Qed.
+
 (** ** no panic, no fuel exhaustion — for every store, whatever its counts, links and cycles *)
 Lemma no_panic_bind {A B} (r : res A) (f : A -> res B) :
   no_panic r -> (forall x, r = Ok x -> no_panic (f x)) -> no_panic (bind r f).
